@@ -218,6 +218,7 @@ type Render struct {
 	NoteBlocks   bool   // every comment line its own NOTE block (else one block with continuation lines)
 	RegionBlocks bool   // every Region: line its own block (else consecutive lines)
 	MapRev       bool   // X-TIMESTAMP-MAP=MPEGTS:..,LOCAL:.. (else LOCAL first)
+	IDPad        int    // leading zeros in front of a numeric cue identifier (still the same decimal number)
 }
 
 func DefaultRender() Render {
@@ -346,7 +347,7 @@ func (d Doc) Bytes(r Render) []byte {
 		}
 		blank()
 		if c.ID != 0 {
-			lines = append(lines, strconv.Itoa(c.ID))
+			lines = append(lines, strings.Repeat("0", r.IDPad)+strconv.Itoa(c.ID))
 		}
 		t := FmtTime(c.Start, r.ShortTime) + " --> " + FmtTime(c.End, r.ShortTime)
 		var set []string
